@@ -530,6 +530,11 @@ func (pf Producer[T]) GenerateParallel(
 						return zero, ErrIteratorSkip
 					}
 
+					// this worker may not continue: stop it
+					// and cancel the group (ReadAll reports
+					// io.EOF as nil, so the observer below
+					// does not see it.)
+					cancel()
 					return zero, io.EOF
 				}
 				return value, nil
